@@ -41,6 +41,17 @@ theorem elabT_scope (env : Env) : ∀ (t : STerm) (n : Nat) (t' : Term) (n' : Na
     · rcases s2 v hv with ⟨x, hx, e⟩ | ⟨h1, h2⟩
       · exact .inl ⟨x, by simp [mentions, hx], e⟩
       · exact .inr ⟨by omega, h2⟩
+  | .comp g a, n, t', n', h => by
+    simp only [elabT] at h
+    generalize ha : elabT env a n = ra at h
+    obtain ⟨a', n1⟩ := ra
+    simp only [Prod.mk.injEq] at h; obtain ⟨rfl, rfl⟩ := h
+    obtain ⟨l1, s1⟩ := elabT_scope env a n a' n1 ha
+    refine ⟨l1, fun v hv => ?_⟩
+    simp only [Term.vars] at hv
+    rcases s1 v hv with ⟨x, hx, e⟩ | ⟨h1, h2⟩
+    · exact .inl ⟨x, by simp [mentions, hx], e⟩
+    · exact .inr ⟨h1, h2⟩
 
 /-- terms: the elaboration only looks at the environment at the names the term mentions -/
 theorem elabT_congr (env env' : Env) : ∀ (t : STerm) (n : Nat), (∀ x, t.mentions x = true → env x = env' x) →
@@ -56,6 +67,9 @@ theorem elabT_congr (env env' : Env) : ∀ (t : STerm) (n : Nat), (∀ x, t.ment
     obtain ⟨a', n1⟩ := ra
     simp only
     rw [elabT_congr env env' b n1 (fun x hx => h x (by simp [mentions, hx]))]
+  | .comp g a, n, h => by
+    simp only [elabT]
+    rw [elabT_congr env env' a n (fun x hx => h x (by simp [mentions, hx]))]
 
 /-- renaming a name in a term = renaming it in the environment, when the new name is not used -/
 theorem elabT_rename (env : Env) (x z : Name) (k : Nat) : ∀ (t : STerm) (n : Nat), t.mentions z = false →
@@ -76,6 +90,10 @@ theorem elabT_rename (env : Env) (x z : Name) (k : Nat) : ∀ (t : STerm) (n : N
     obtain ⟨a', n1⟩ := ra
     simp only
     rw [elabT_rename env x z k b n1 h.2]
+  | .comp g a, n, h => by
+    simp only [mentions] at h
+    simp only [STerm.rename, elabT]
+    rw [elabT_rename env x z k a n h]
 
 theorem mem_names (x : Name) : ∀ t : STerm, x ∈ t.names ↔ t.mentions x = true
   | .var y => by
@@ -85,6 +103,7 @@ theorem mem_names (x : Name) : ∀ t : STerm, x ∈ t.names ↔ t.mentions x = t
   | .val c => by simp [names, mentions]
   | .nil => by simp [names, mentions]
   | .cons a b => by simp [names, mentions, List.mem_eraseDups, mem_names x a, mem_names x b]
+  | .comp g a => by simp only [names, mentions]; exact mem_names x a
 
 theorem bindAll_notin (env : Env) : ∀ (ns : List Name) (n : Nat) (y : Name), y ∉ ns → bindAll env ns n y = env y
   | [], _, _, _ => rfl
